@@ -305,6 +305,8 @@ func cmdConc(kind string, args []string) {
 		nops := len(opLines)
 		opts := p.Opts()
 		stalls := 0
+		visited := 0        // runs seen so far (one system, hence one set of final reads, per run)
+		var skipped []int   // indices of the runs that produced no case
 		visit := func(run *conc.Run) bool {
 			if run.Stalled != "" {
 				stalls++
@@ -316,8 +318,11 @@ func cmdConc(kind string, args []string) {
 			}
 			if run.Infeasible {
 				rep.Extra["infeasible_replays_discarded"]++
+				skipped = append(skipped, visited)
+				visited++
 				return true
 			}
+			visited++
 			c := &concCase{prog: pj, sched: append([]int{}, run.Chosen...), run: run, nops: nops, setup: setupLines, ops: opLines, final: finalLines}
 			c.lines = append(c.lines, "reset")
 			c.impl = append(c.impl, "ok")
@@ -355,9 +360,20 @@ func cmdConc(kind string, args []string) {
 				return &finalOnClose{System: s, take: func() { finals = append(finals, p.Final(s)) }}
 			}
 			runs, done = conc.Explore(wrapped, opts, *maxRuns, visit)
+			// finals has one entry per run, cases one per run that was kept: drop the finals of the others
+			skip := map[int]bool{}
+			for _, k := range skipped {
+				skip[k] = true
+			}
+			var kept [][]string
+			for k, f := range finals {
+				if !skip[k] {
+					kept = append(kept, f)
+				}
+			}
 			for i, c := range cases {
-				if i < len(finals) {
-					c.fimpl = finals[i]
+				if i < len(kept) {
+					c.fimpl = kept[i]
 				}
 			}
 		}
